@@ -457,6 +457,79 @@ def phase_protocol(ctx, py: PyRepo):
         ctx.ob('phase-protocol', meth, found, f'{meth} never calls interpreter.{trans}()', py.where('proof', fn))
 
 
+def slot_budget(ctx, py):
+    """`Load` addresses memory with one byte, so a serialisation that needs more than 256 slots cannot be written at all
+    (bytes([..]) raises).  Slots are taken by published axioms / saved proofs (memory at analysis time) and by one Save per pattern
+    the optimiser decides to memoise; the analyser therefore may suggest at most 256 - len(memory) patterns."""
+    import ast as _ast
+    from ..core import astpaths
+    from .c16 import Lin, lin_index
+    ci = py.cls('CountingInterpreter', 'counting_interpreter')
+    init, fin = ci.methods.get('__init__'), ci.methods.get('finalize')
+    ctx.require(init is not None and fin is not None, 'anchor vanished: CountingInterpreter.__init__ / finalize')
+    where = py.where(ci.module, fin)
+    # the loop that selects patterns: `while <counter> > 0 ...` adding to the suggestion set
+    loops = [n for n in _ast.walk(fin) if isinstance(n, _ast.While)]
+    sel = [lp for lp in loops if any(isinstance(x, _ast.Call) and isinstance(x.func, _ast.Attribute) and x.func.attr == 'add'
+                                     and 'suggest' in _ast.unparse(x.func.value) for x in _ast.walk(lp))]
+    ctx.require(len(sel) == 1, 'CountingInterpreter.finalize: selection loop not found')
+    lp = sel[0]
+    m = [c for c in _ast.walk(lp.test) if isinstance(c, _ast.Compare) and isinstance(c.left, _ast.Name) and len(c.ops) == 1
+         and isinstance(c.ops[0], _ast.Gt) and _ast.unparse(c.comparators[0]) == '0']
+    ctx.ob('slot-budget', 'loop-bounded-by-counter', len(m) == 1 and (not isinstance(lp.test, _ast.BoolOp) or isinstance(lp.test.op, _ast.And)),
+           'the selection loop must stop when the slot counter reaches 0', py.where(ci.module, lp))
+    if len(m) != 1:
+        return
+    CNT = m[0].left.id
+    ok_dec = True
+    for sp in astpaths.paths(lp.body):
+        adds = sum(1 for a in sp.actions for x in _ast.walk(a) if isinstance(x, _ast.Call) and isinstance(x.func, _ast.Attribute)
+                   and x.func.attr == 'add' and 'suggest' in _ast.unparse(x.func.value))
+        decs = sum(1 for a in sp.actions if isinstance(a, _ast.AugAssign) and isinstance(a.op, _ast.Sub) and _ast.unparse(a.target) == CNT
+                   and _ast.unparse(a.value) == '1')
+        if adds > decs:
+            ok_dec = False
+    ctx.ob('slot-budget', 'one-slot-per-suggestion', ok_dec, 'every pattern added to the suggestions must take one slot off the counter',
+           py.where(ci.module, lp))
+    # value of the counter at loop entry as a linear form
+    env = {}
+    for n in init.body:
+        if isinstance(n, _ast.Assign) and isinstance(n.targets[0], _ast.Attribute) and isinstance(n.value, _ast.Constant):
+            env[_ast.unparse(n.targets[0])] = Lin(n.value.value) if isinstance(n.value.value, int) else None
+
+    def val(e):
+        txt = _ast.unparse(e)
+        if txt in env and env[txt] is not None:
+            return env[txt]
+        return lin_index(e, {})
+    why = ''
+    for n in fin.body:
+        if n.lineno >= lp.lineno:
+            break
+        try:
+            if isinstance(n, _ast.AugAssign) and isinstance(n.op, (_ast.Sub, _ast.Add)):
+                t = _ast.unparse(n.target)
+                cur = env.get(t) or Lin(0, {t: 1})
+                d = val(n.value)
+                env[t] = cur + (d.scale(-1) if isinstance(n.op, _ast.Sub) else d)
+            elif isinstance(n, _ast.Assign) and len(n.targets) == 1:
+                env[_ast.unparse(n.targets[0])] = val(n.value)
+        except ValueError as ex:
+            # not a linear quantity: unknown from here on (only matters if the counter depends on it)
+            t = _ast.unparse(n.target if isinstance(n, _ast.AugAssign) else n.targets[0])
+            env[t] = None
+            if t in ('self._max_allowed_slots', CNT):
+                why = str(ex)
+    budget = env.get(CNT)
+    ok = budget is not None and set(budget.t) == {'#self.memory'} and budget.t['#self.memory'] == -1 and budget.c <= 256
+    ctx.ob('slot-budget', 'budget', ok,
+           f'the analyser may suggest at most 256 - len(self.memory) patterns (one-byte Load operand; the slots of the published axioms '
+           f'are already taken); its counter starts at {budget if budget is not None else "a value that is not linear in len(self.memory)"}'
+           f'{" (" + why + ")" if why else ""}: with enough axioms and repeated patterns the optimised serialisation needs a slot '
+           f'number above 255 and cannot be written', where, facts={'counter at loop entry': repr(budget)})
+    ctx.floor('slot-budget', 3)
+
+
 def run(ctx):
     py = PyRepo.get()
     r = Rust.get()
@@ -478,6 +551,12 @@ def run(ctx):
     claims_discipline(ctx, py, rust_arms)
     axioms_three_way(ctx, w, rust_arms)
     phase_protocol(ctx, py)
+    slot_budget(ctx, py)
+    # generator and checker must compute the same pattern for Instantiate and for a resolved substitution: both follow the textbook
+    # table (shared with C11 / C05); a checker that instantiates differently rejects the claim the generator published
+    from . import c11
+    c05.subst_conformance(ctx, r)
+    c11.python_half(ctx, py)
     ctx.floor('emit', 24)
     ctx.floor('layout', 22)
     ctx.floor('wiring', 18)
